@@ -10,11 +10,14 @@ claimed={
  "C09":("accepted => within: adversary reads the limits just published and requests at/below/above them; every accepted step is compared with ratings, published transient/SOC limits and the ramp-rate bound", GEN+" (stateful adversary) vs limit monitor"),
  "C10":("after every accepted consist step: conservation of demand, per-unit capability, sign agreement, regen placement and the battery-first rule, over generated consists/policies/histories", GEN+" vs validity predicate on the split"),
  "C03":("every saved step of generated speed-limited runs (whole path and link-by-link extension) is compared with an independently computed posted limit, the limit in force, monotone position and the stopping window; unwinds are violations; termination of walk() on a stalled train is probed in a child process", GEN+" vs independent posted-limit model + invariants over the history"),
+ "C04":("every dispatcher snapshot (verif_hooks observer) and the final plan of generated corridor scenarios are checked for overlapping occupancy of a physical segment by opposing trains, of mutually exclusive segments, order changes inside a segment and the configured headway; plus a black-box check on the returned timed paths", GEN+" vs interval-overlap reference model over hook snapshots and final plan"),
+ "C05":("returned plans are validated (one route per train, origin/departure/destination, contiguity, monotone times, never faster than free-running), errors must name trains, any unwind or abort (incl. debug assertions and std unsafe-precondition checks) is a violation; supervisor/worker processes contain aborts", GEN+" vs plan validity predicate; abort containment by process isolation"),
  "C06":("the built path profile is compared point by point with an independent walk of the network's own elevation / heading / catenary points, with count cross-checks, one-shot vs incremental equality, a mirror-image metamorphic relation and rejection of corrupted routes", GEN+" vs reference model + differential (one-shot vs partitions) + metamorphic (mirror)"),
  "C07":("every saved step's six resistance forces, weight, front elevation and front/rear grades are recomputed from an independent walk of the network's own points and from the car list", GEN+" vs reference model (elevation / curve walk)"),
  "C11":("per saved step and at the end, power/energy numbers at train, consist and summed-locomotive level and the annualised trip getters are compared", GEN+" vs cross-level ledger"),
  "C12":("per saved step: time, front/rear position, total distance, front segment and in-segment offset recomputed from speeds and route", GEN+" vs kinematic reference"),
  "C14":("per step: (time,speed)==trace, wheel power == clamp(inertia+resistance) within the published limits, energy advance == power x trace dt; negative entries at generated indices must be rejected", GEN+" vs reference formula"),
+ "C15":("every node, edge and start-to-end walk (exhaustive up to 4096) of the estimated-time net of generated corridor/train pairs is checked for reciprocity, acyclicity, route faithfulness, time bounds along edges and trip time == own shortest walk", GEN+" vs graph validity predicate + own DAG shortest path"),
  "C19":("the serialised object tree of every simulation kind is walked generically: all histories equal length == expected count, identical step columns, nested counters == top-level counter, nested save_interval == interval in force", GEN+" vs invariant over the object tree"),
  "C20":("model-based operation sequences on components and locomotives loaded from JSON with all known/unknown/contradictory field combinations; invariant + per-option post-conditions after every call; consist aggregates", GEN+" (operation sequences) vs model of the documented side-effect options"),
  "C13":("two-sided equality with the same brute-force model plus canonical-form invariants", GEN+" vs brute-force reference model"),
